@@ -5,7 +5,7 @@ EXPLANATION = ('(a) Internals::seq_compare for all 2^64 pairs: result in {-1,0,1
                'headers: k segments of a W-byte stream whose (offset,length) shapes and initial sequence number (8 values bracketing 0, 2^31 and 2^32) are enumerated concretely while the stream bytes are symbolic; after every '
                'segment the delivered bytes, the delivery point, the buffered chunks and total_buffered_bytes are compared with a bitmap model.')
 BOUNDS = {'quick': 'seq_compare: all pairs; tracker: k=2 segments, every pair of shapes inside W=3 stream bytes x ISN in {0xfffffffd, 0xffffffff, 0}; k=3 segments at ISN 0xfffffffe: every triple of shapes inside 3 stream bytes and every triple that completes a 4-byte stream; any stream bytes',
-          'thorough': 'tracker: k=2 with W=4 (100 pairs) x 8 ISNs; k=3 with W=4 x ISN in {0xfffffffe, 0, 0x80000000}'}
+          'thorough': 'tracker: k=2 with W=4 (100 pairs) x 8 ISNs; k=3: the quick set of triples x ISN in {0xfffffffe, 0, 0x80000000}'}
 OUTSIDE = 'the legacy TCPStream follower; Flow::process_packet callbacks; stale segments before the ISN; streams longer than W; more than 3 segments'
 ASSUMPTIONS = ['the four libstdc++.so red-black-tree primitives are engine/models/rbtree.c (a line-by-line C port of libstdc++ tree.cc)']
 NRAND = {'quick': 30, 'thorough': 100}
@@ -31,7 +31,7 @@ def instances(tier):
         for a in shapes(W3):
             for b in shapes(W3):
                 for c in shapes(W3):
-                    if tier == 'quick' and not full(W3, a, b, c) and not (max((x >> 4) + (x & 15) for x in (a, b, c)) <= 3): continue   # quick: triples that complete the 4-byte stream, plus all triples inside 3 bytes
+                    if not full(W3, a, b, c) and not (max((x >> 4) + (x & 15) for x in (a, b, c)) <= 3): continue   # triples that complete the 4-byte stream, plus all triples inside 3 bytes (all 1000 triples per ISN: not calibrated)
                     out.append(Inst('c06', 'h_c06_tracker3', params=(W3 | (n << 8), a, b, c), unwind=10, timeout=300, mem_gb=4,
                                     note='ISN #%d, three segments %s of a %d-byte stream' % (n, [(x >> 4, x & 15) for x in (a, b, c)], W3)))
     return out
